@@ -69,6 +69,18 @@ pub fn programs(tier: Tier) -> Vec<RProgram> {
             }
         }
     }
+    // one program with many declarations (beyond any small window): twenty type declarations
+    // around the procedures of the pool
+    {
+        let mut decls: Vec<RDecl> = vec![pool[0].clone()];
+        for k in 0..20 {
+            decls.push(RDecl::Type { name: format!("T{}", k), ty: if k % 2 == 0 { arr(2, tname("int")) } else { tname("A") } });
+            if k % 5 == 4 {
+                decls.push(pool[[1usize, 2, 4, 6][k / 5]].clone());
+            }
+        }
+        out.push(RProgram { decls });
+    }
     out
 }
 
@@ -149,15 +161,22 @@ pub fn base(prog: &RProgram, docs: bool) -> Base {
     let mut sem = refsem::analyze(prog);
     if docs {
         let n = pr.decl_spans.len();
+        // one doc-comment line per declaration; in programs with many declarations the fourth
+        // one gets forty (more lines than any small look-ahead window)
+        let lines = |d: usize| if n > 6 && d == 3 { 40 } else { 1 };
         for d in (0..n).rev() {
             let (a, _) = pr.decl_spans[d];
-            pr.toks.insert(a, Tok { text: format!("// doc{}\n", d), class: TokClass::Symbol, decl: d, level: 0 });
+            for k in (0..lines(d)).rev() {
+                pr.toks.insert(a, Tok { text: format!("// doc{}.{}\n", d, k), class: TokClass::Symbol, decl: d, level: 0 });
+            }
         }
+        // comment tokens in front of declaration d (exclusive) and up to it (inclusive)
+        let before = |d: usize| -> usize { (0..d).map(lines).sum() };
         for d in 0..n {
             let (a, b) = pr.decl_spans[d];
-            pr.decl_spans[d] = (a + d, b + d + 1);
+            pr.decl_spans[d] = (a + before(d), b + before(d) + lines(d));
         }
-        let shift = |t: usize, toks_decl: usize| t + toks_decl + 1;
+        let shift = |t: usize, toks_decl: usize| t + before(toks_decl) + lines(toks_decl);
         // token -> declaration index is known from the (already shifted) token list
         let decl_of_old: Vec<usize> = {
             let mut v = vec![];
@@ -522,8 +541,9 @@ pub fn sweep(tier: Tier) -> (Report, Vec<u64>) {
     let hist_results: Vec<(u64, bool, Option<Failure>)> = progs
         .par_iter()
         .enumerate()
-        .filter(|(pi, _)| pi % tier.pick(9, 2) == 0)
+        .filter(|(pi, p)| pi % tier.pick(9, 2) == 0 || p.decls.len() > 6)
         .flat_map_iter(|(pi, p)| {
+            let big = p.decls.len() > 6;
             let mut out: Vec<(u64, bool, Option<Failure>)> = vec![];
             let mut seen = std::collections::HashSet::new();
             let mut kept_known = 0usize;
@@ -542,8 +562,8 @@ pub fn sweep(tier: Tier) -> (Report, Vec<u64>) {
                         dmgs.push(Damage::Replace(k, t.to_string()));
                     }
                 }
-                for (i1, first) in dmgs.iter().enumerate().step_by(tier.pick(3, 1)) {
-                    for (i2, second) in dmgs.iter().enumerate().skip(i1 % 2).step_by(tier.pick(2, 1)) {
+                for (i1, first) in dmgs.iter().enumerate().step_by(if big { 7 } else { tier.pick(3, 1) }) {
+                    for (i2, second) in dmgs.iter().enumerate().skip(i1 % 2).step_by(if big { 5 } else { tier.pick(2, 1) }) {
                         if i1 == i2 {
                             continue;
                         }
